@@ -62,6 +62,10 @@ def main():
     meta["applies_to_repo"] = rc_repo == 0
     results = {}
     if rc_repo == 0:
+        # evidence written while /repo is patched must not replace the evidence of the real tree
+        ev, bak = os.path.join(ROOT, "evidence"), os.path.join(ROOT, ".evidence_backup")
+        shutil.rmtree(bak, ignore_errors=True)
+        shutil.copytree(ev, bak)
         sh(f"git -C /repo apply {patch}")
         try:
             for chk in (a.checks.split(",") if a.checks else [a.prop]):
@@ -72,6 +76,8 @@ def main():
                 meta["ran"].append(f"git -C /repo apply patch.diff && ./check {chk} --tier {a.tier}  -> exit {rc}")
         finally:
             sh("git -C /repo checkout -- . && git -C /repo clean -fdq src")
+            shutil.rmtree(ev, ignore_errors=True)
+            shutil.move(bak, ev)
     meta["checks"] = results
     meta["caught_by"] = [k for k, v in results.items() if v["exit"] == 1]
     d = os.path.join(ROOT, "seeded", a.seed_id)
